@@ -610,7 +610,7 @@ def l14(ctx, rid):
                 if t['k'] != 'switch':
                     continue
                 for (bb, si, kind, r) in f.defs().get(op_local(t['o']), []):
-                    if kind == 'assign' and r['k'] == 'discr' and r['p'][0] in carry:
+                    if kind == 'assign' and r['k'] == 'discr' and r['p'][0] in carry and 'ObserverState' in (core.place_type_str(f, r['p']) or f.locals[r['p'][0]]['s']):
                         found = True
                         for v, tg in t['vals']:
                             if v != created:
